@@ -32,7 +32,9 @@ RULE = ('cwrs: for every (N,K) of the static mode\'s pulse cache (23 band sizes 
         'A case is one protocol line; a block line stands for up to 4096 (cwrs) / 32768 (laplace) compared evaluations; '
         'distinct = (op, outcome kind) classes')
 NOT_COVERED = [
-    'CELT frame round trip: silent frames (header only); the PVQ leaf decision is the codeword index '
+    'CELT frame round trip: silent frames (header only: their band data is not modelled — fine energy has no budget test, so "nothing '
+    'is read" would need the allocation\'s outputs for sub-one-bit budgets); the trace statement covers the calls behind the allocation, '
+    'not the header\'s; the PVQ leaf decision is the codeword index '
     '(bijective with alg_quant\'s pulse vector by cwrsi_icwrs / icwrs_cwrsi), theta_rdo\'s discarded trial encodings are not modelled; '
     'the FUZZING build, custom modes, '
     'lfe streams on real frames (lfe is modelled and covered by the direct coarse-energy tie only), the degenerate hybrid case in which the '
@@ -101,7 +103,8 @@ LEVEL_TEXT = ('full proof: U/V recurrence and symmetry; cwrsi and icwrs (transcr
               'energy differs from the decoded one is pinned down; the rest of the CELT frame (fine energy, quant_all_bands with splits, '
               'stereo, all theta PDFs, PVQ indices, anti-collapse, finalise): the encoder model round-trips through C03\'s band decoder '
               'model with equal final range, ec_tell, ec_tell_frac — the CELT frame round trip, stated against C03\'s complete celtFrame '
-              '(its call-by-call driving of the allocation is linked through an oracle-prefix determinism lemma for computeAllocation)')
+              '(its call-by-call driving of the allocation is linked through an oracle-prefix determinism lemma for computeAllocation); the '
+              'decoder model\'s trace of calls behind the allocation is shown to be the encoder\'s call list with the encoder\'s values')
 LEVEL_NOTE = ('trusted: Lean kernel; the extractors tools/extract/CeltTables.c, SilkIcdf.c (tables go through the C compiler); the '
               'transcription of cwrs.c/laplace.c into Lean, tied by exact differential runs on the real code under ASan/UBSan with only '
               'the range-coder entry points stubbed; ftb values and table slices per call site (source scan + the tables captured at the '
